@@ -287,3 +287,24 @@ Theorem C08_binary64_relative_bin_exact : forall start b : Z,
   0 <= start < 2^53 -> 0 < b < 2^53 -> Zfloor (fdiv start b) = start / b.
 Proof. exact floor_fdiv_is_div. Qed.
 Print Assumptions C08_binary64_relative_bin_exact.
+
+(** ---- what a user reads from the coarsened cooler (composition with C02 and C03): the dense range query on the
+    k-fold coarsened collection — every window of coarse bins, every read chunk size, every coarsening chunk / batch
+    size — is the symmetric completion of the base's stored pixels re-keyed by the bin-index table: cell (I, J) is the
+    sum of the stored values of all base pixels falling into coarse pixel {I, J}. *)
+From Cooler Require Import Model.Query Proofs.QueryProofs Proofs.HistoryProofs Proofs.CoarsenQuery.
+Theorem C08_coarsen_then_dense_query : forall blocks (c : Index.cooler) k chunksize batchsize cs i0 i1 j0 j1,
+  EntryOK (blocks, c) -> Index.symmetric_upper c = true -> 1 <= k -> 1 <= chunksize -> 1 <= batchsize -> 1 <= cs ->
+  let nb := map (coarsen_block k) blocks in
+  let n' := zlen (concat nb) in
+  0 <= i0 -> i0 <= i1 -> i1 <= n' -> 0 <= j0 -> j0 <= j1 -> j1 <= n' ->
+  exists c' out,
+    Index.create_model (zlen nb) (map bchrom (concat nb))
+                 (snd (coarsen_cooler (concat blocks) (map chrom_end blocks) (Index.pixels_of c) k chunksize batchsize)) true = Some c' /\
+    fill_lower_query (epx_of (Index.pixels_of c')) (Index.bin1_offset c') (get_spans (Index.bin1_offset c') cs) (i0, i1, j0, j1) = Some out /\
+    dense_of out (i0, i1, j0, j1) =
+    map (fun I => map (fun J => symm (map (rekey (index_table (map zlen blocks) k)) (Index.pixels_of c)) I J)
+                      (zrange j0 (Z.to_nat (j1 - j0))))
+        (zrange i0 (Z.to_nat (i1 - i0))).
+Proof. exact coarsen_then_dense_query. Qed.
+Print Assumptions C08_coarsen_then_dense_query.
